@@ -25,6 +25,7 @@ import (
 	"github.com/bbva/qed/balloon"
 	qedcmd "github.com/bbva/qed/cmd"
 	"github.com/bbva/qed/consensus"
+	"github.com/bbva/qed/crypto/hashing"
 	"github.com/bbva/qed/log"
 	"github.com/bbva/qed/protocol"
 	"github.com/bbva/qed/storage"
@@ -46,6 +47,7 @@ type world struct {
 type storeH struct {
 	path string
 	st   *rocks.RocksDBStore
+	bal  *balloon.Balloon // ops "store-balloon-*": a Balloon directly on this store (no raft)
 }
 
 type rlogH struct {
@@ -163,12 +165,16 @@ func (w *world) storeOp(r *xp.Req, resp *xp.Resp) {
 			resp.Err = err.Error()
 			return
 		}
-		w.stores[r.Name] = &storeH{r.Path, st}
+		w.stores[r.Name] = &storeH{path: r.Path, st: st}
 	case "store-close":
 		h := w.stores[r.Name]
 		if h == nil {
 			resp.Err = "no such store"
 			return
+		}
+		if h.bal != nil {
+			h.bal.Close()
+			h.bal = nil
 		}
 		resp.Err = errStr(h.st.Close())
 		delete(w.stores, r.Name)
@@ -210,6 +216,92 @@ func (w *world) storeOp(r *xp.Req, resp *xp.Resp) {
 		}
 		first, differ, err := atomicRead(h.st, int(r.A))
 		resp.Err, resp.Bad, resp.URL = errStr(err), differ, first
+	case "store-balloon-open", "store-balloon-reopen":
+		// a real Balloon directly on the RocksDB store; reopen = close the balloon and the
+		// store (an abort inside RocksDB's close is the death of this child), open both again
+		h := w.stores[r.Name]
+		if h == nil {
+			resp.Err = "no such store"
+			return
+		}
+		if r.Op == "store-balloon-reopen" {
+			if h.bal != nil {
+				h.bal.Close()
+				h.bal = nil
+			}
+			if err := h.st.Close(); err != nil {
+				resp.Err = "close: " + err.Error()
+				return
+			}
+			st, err := openStore(h.path)
+			if err != nil {
+				resp.Err = "reopen: " + err.Error()
+				return
+			}
+			h.st = st
+		}
+		bal, err := balloon.NewBalloon(h.st, hashing.NewSha256Hasher)
+		if err != nil {
+			resp.Err = "NewBalloon: " + err.Error()
+			return
+		}
+		h.bal = bal
+		resp.State = &xp.State{BalloonVersion: bal.Version()}
+	case "store-balloon-add":
+		// r.Events are event digests; r.Wait = one AddBulk call, else one Add per digest.
+		// Mutations are written after every call, as the FSM does.
+		h := w.stores[r.Name]
+		if h == nil || h.bal == nil {
+			resp.Err = "no such balloon"
+			return
+		}
+		func() {
+			defer func() {
+				if p := recover(); p != nil {
+					resp.Err = fmt.Sprintf("panic: %v", p)
+					resp.ErrKind = "panic"
+				}
+			}()
+			var snaps []*balloon.Snapshot
+			var muts []*storage.Mutation
+			var err error
+			if r.Wait {
+				ds := make([]hashing.Digest, len(r.Events))
+				for i := range r.Events {
+					ds[i] = append([]byte(nil), r.Events[i]...)
+				}
+				snaps, muts, err = h.bal.AddBulk(ds)
+				if err == nil {
+					err = h.st.Mutate(muts, []byte("meta"))
+				}
+			} else {
+				for _, e := range r.Events {
+					var s *balloon.Snapshot
+					s, muts, err = h.bal.Add(append([]byte(nil), e...))
+					if err != nil {
+						break
+					}
+					if err = h.st.Mutate(muts, []byte("meta")); err != nil {
+						break
+					}
+					snaps = append(snaps, s)
+				}
+			}
+			if err != nil {
+				resp.Err = err.Error()
+				return
+			}
+			for _, s := range snaps {
+				resp.Snaps = append(resp.Snaps, xp.Snap{Version: s.Version, Event: s.EventDigest, History: s.HistoryDigest, Hyper: s.HyperDigest})
+			}
+		}()
+	case "store-balloon-query":
+		h := w.stores[r.Name]
+		if h == nil || h.bal == nil {
+			resp.Err = "no such balloon"
+			return
+		}
+		resp.Answers = runQueries(h.bal, r.Queries, time.Duration(r.N)*time.Millisecond)
 	case "store-dump":
 		h := w.stores[r.Name]
 		if h == nil {
@@ -875,7 +967,15 @@ func (w *world) nodeOp(r *xp.Req, resp *xp.Resp) {
 	}
 }
 
-func runQueries(n *consensus.RaftNode, qs []xp.Query, timeout time.Duration) []xp.Answer {
+// querier is the read API a RaftNode and a bare Balloon share.
+type querier interface {
+	QueryDigestMembershipConsistency(keyDigest hashing.Digest, version uint64) (*balloon.MembershipProof, error)
+	QueryMembershipConsistency(event []byte, version uint64) (*balloon.MembershipProof, error)
+	QueryDigestMembership(keyDigest hashing.Digest) (*balloon.MembershipProof, error)
+	QueryConsistency(start, end uint64) (*balloon.IncrementalProof, error)
+}
+
+func runQueries(n querier, qs []xp.Query, timeout time.Duration) []xp.Answer {
 	if timeout == 0 {
 		timeout = 10 * time.Second
 	}
